@@ -68,7 +68,7 @@ theorem genParseConfig_congr {α β : Type} (V V' : Str → Str → Bool → Exc
   have e4 : r4 = .str s4 := by cases r4 <;> simp [Py.strOf] at hs4; exact congrArg _ hs4
   have e6 : r6 = .str s6 := by cases r6 <;> simp [Py.strOf] at hs6; exact congrArg _ hs6
   subst e4 e6
-  simp only [isNew_fold, isNew_fold']
+  simp only [Bool.not_or, isNew_fold, isNew_fold']
   -- the validation callee
   have hv := hV s4 s6 hl4 hl6
   simp only [stripQuotes] at hv
